@@ -52,12 +52,14 @@ ALLOWED = ("constant", "parameter", "fixed_input", "loop_index")
 DISALLOWED = ("time", "state", "derivative", "algebraic", "nonfixed_input")
 CATS = ("constant", "parameter", "fixed_input", "nonfixed_input", "time", "state", "derivative", "algebraic")
 OPTION_NAMES = ("expand_mx", "expand_vectors", "unroll_loops", "inline_functions")
+# options that eliminate variables by substitution (a duration that is a bare symbol may be the eliminated one)
+ELIM_OPTION_NAMES = ("detect_aliases", "replace_constant_values")
 # known-finding features (excluded by construction while a matching KNOWN_FINDINGS entry is active)
 F_FREE = "loop_expr_free_symbol"  # delayed expression inside a loop uses a scalar that occurs nowhere else in the loop body
 F_IDXDUR = "loop_indexed_duration"  # duration inside a loop depends on the loop index / an element subscripted by it
 
 I = ["var", "i"]
-COEFS = ["0.5", "1.5", "2.0", "1.25", "3.0", "2", "3"]
+COEFS = ["0.5", "1.5", "2.0", "1.25", "3.0", "2", "3", "1", "1"]  # "1": no factor at all (a term may be a bare symbol)
 
 
 # --------------------------------------------------------------------------
@@ -81,7 +83,7 @@ def scalar_members(cat, n, ev=False):
     if cat == "derivative":
         return [["der", ["var", "x0"]], ["der", ["var", "x1"]]]
     if cat == "algebraic":
-        return [["var", "a0"], ["var", "a1"]] + [["idx", "xa", k] for k in range(1, n + 1)]
+        return [["var", "a0"], ["var", "a1"], ["var", "ad"]] + [["idx", "xa", k] for k in range(1, n + 1)]
     raise ValueError(cat)
 
 
@@ -104,9 +106,9 @@ def dur_expr(dur):
     terms = []
     for coef, members in dur:
         lit = ["real", coef] if "." in coef else ["int", int(coef)]
-        t = lit
+        t = lit if coef != "1" else None
         for _cat, node in members:
-            t = ["bin", "*", t, node]
+            t = node if t is None else ["bin", "*", t, node]
         terms.append(t)
     e = terms[0]
     for t in terms[1:]:
@@ -142,7 +144,7 @@ def build_model(case):
         v("un", prefix="input"),
         v("uaf", prefix="input", dims=[n], attrs={"each fixed": ["bool", True]}),
         v("uan", prefix="input", dims=[n]),
-        v("x0"), v("x1"), v("a0"), v("a1"),
+        v("x0"), v("x1"), v("a0"), v("a1"), v("ad"),
         v("xs", dims=[n]), v("xa", dims=[n]),
     ]
     if case["opts"].get("expand_vectors"):
@@ -154,6 +156,7 @@ def build_model(case):
         ["eq", ["der", ["var", "x1"]], ["bin", "*", ["var", "x0"], ["var", "uf"]]],
         ["eq", ["var", "a0"], ["bin", "+", ["bin", "*", ["int", 2], ["var", "x0"]], ["time"]]],
         ["eq", ["var", "a1"], ["bin", "*", ["var", "a0"], ["var", "p0"]]],
+        ["eq", ["var", "ad"], ["var", "x0"]],  # an alias of a state (eliminated by detect_aliases)
         ["for", "i", 1, n, None, [["eq", ["der", ["idxe", "xs", I]], ["bin", "+", ["idxe", "xa", I], ["var", "x0"]]]]],
     ]
     for k, d in enumerate(case["delays"]):
@@ -209,6 +212,10 @@ def make_point(case, rs):
     for name in ("c0", "c1", "p0", "p1", "uf", "un", "x0", "x1", "a0", "a1"):
         env[name] = float(rs.uniform(0.5, 3.0))
         der[name] = float(rs.uniform(0.5, 3.0))
+    # points consistent with what the eliminating options substitute
+    env["ad"], der["ad"] = env["x0"], der["x0"]
+    if case["opts"].get("replace_constant_values"):
+        env["c0"], env["c1"] = 0.75, 1.25
     names = ["pa", "xs", "xa", "uaf", "uan"]
     if case["opts"].get("expand_vectors"):
         env["um"] = rs.uniform(0.5, 3.0, size=(2, 2))
@@ -409,6 +416,9 @@ def _check_case(ctx, case):
 def labels_of(case, bad):
     labels = ["expected:" + ("rejected" if bad else "accepted"), "delays:%d" % len(case["delays"]), "cache:%s" % bool(case.get("cache"))]
     labels += ["opt:%s=%s" % (k, case["opts"][k]) for k in OPTION_NAMES]
+    labels += ["opt:%s" % k for k in ELIM_OPTION_NAMES if case["opts"].get(k)]
+    if any(coef == "1" and len(ms) == 1 for d in case["delays"] for coef, ms in d["dur"]):
+        labels.append("dur:bare_symbol_term")
     seen = set()
     for d in case["delays"]:
         cats = dur_cats(d["dur"])
@@ -537,6 +547,8 @@ def case_strategy(draw, ctx=None):
     known_idx = ctx is not None and ctx.known(F_IDXDUR)
     n = draw(st.integers(2, 4))
     opts = {k: draw(st.booleans()) for k in OPTION_NAMES}
+    for k in ELIM_OPTION_NAMES:
+        opts[k] = draw(st.integers(0, 2)) == 0
     n_delays = draw(st.sampled_from([1, 2, 2, 3]))
     accept = draw(st.booleans())
     forced_at = None if accept else draw(st.integers(0, n_delays - 1))
